@@ -215,6 +215,15 @@ fn reply_for(id: usize) -> String {
     format!("<rpc-reply message-id=\"{id}\" xmlns=\"{BASE_NS}\"><data>{}</data></rpc-reply>{MARKER}", tag_for(id))
 }
 
+/// the value the caller must receive for reply `id` when its data is padded to `pad` bytes
+fn big_value(id: usize, pad: usize) -> String {
+    if pad == 0 { tag_for(id) } else { format!("{}<pad>{}</pad>", tag_for(id), "x".repeat(pad)) }
+}
+
+fn big_reply(id: usize, pad: usize) -> String {
+    format!("<rpc-reply message-id=\"{id}\" xmlns=\"{BASE_NS}\"><data>{}</data></rpc-reply>{MARKER}", big_value(id, pad))
+}
+
 fn server_hello() -> String {
     hello_msg(&[CAP_BASE_1_0, CAP_JUNOS], "42")
 }
@@ -240,6 +249,8 @@ pub struct SegCase {
     pub replies: usize,
     /// cut offsets into the concatenation of the replies
     pub reply_cuts: Vec<usize>,
+    /// padding (bytes) inside the data of the first reply (0 = short replies)
+    pub big: usize,
     pub desc: String,
 }
 
@@ -294,8 +305,9 @@ pub fn run_seg(servers: &Servers, case: &SegCase) -> SegOutcome {
         if got < case.replies {
             problems.push(("requests-not-received".into(), format!("only {got} of {} pipelined requests reached the peer", case.replies)));
         } else {
-            let stream: String = (1..=case.replies).map(reply_for).collect();
-            let ends: Vec<usize> = (1..=case.replies).scan(0usize, |acc, k| { *acc += reply_for(k).len(); Some(*acc) }).collect();
+            let msg = |k: usize| if k == 1 { big_reply(k, case.big) } else { reply_for(k) };
+            let stream: String = (1..=case.replies).map(msg).collect();
+            let ends: Vec<usize> = (1..=case.replies).scan(0usize, |acc, k| { *acc += msg(k).len(); Some(*acc) }).collect();
             let chunks = cut(stream.as_bytes(), &case.reply_cuts);
             let mut sent = 0usize;
             let mut next_to_check = 0usize;
@@ -329,8 +341,8 @@ pub fn run_seg(servers: &Servers, case: &SegCase) -> SegOutcome {
             let l = log.lock().unwrap();
             for k in 0..case.replies {
                 match l.results.get(k).and_then(|r| r.as_ref()) {
-                    Some((Ok(v), _)) if *v == tag_for(k + 1) => {}
-                    Some((other, _)) => problems.push(("wrong-or-failed-delivery".into(), format!("request {} resolved to {other:?}, expected {:?}", k + 1, tag_for(k + 1)))),
+                    Some((Ok(v), _)) if *v == if k == 0 { big_value(1, case.big) } else { tag_for(k + 1) } => {}
+                    Some((other, _)) => problems.push(("wrong-or-failed-delivery".into(), format!("request {} resolved to {}, expected {:?}", k + 1, format!("{other:?}").chars().take(200).collect::<String>(), tag_for(k + 1)))),
                     None => problems.push(("message-never-delivered".into(), format!("request {} never resolved although the whole stream was delivered", k + 1))),
                 }
             }
@@ -359,7 +371,7 @@ pub fn seg_cases(thorough: bool) -> Vec<SegCase> {
         // hello: every single cut (thorough) or the delimiter zone + a few others
         let hello_singles: Vec<usize> = if thorough { (1..hlen).collect() } else { let mut v = delimiter_zone(hlen); v.extend([1, hlen / 2]); v };
         for c in hello_singles {
-            out.push(SegCase { xport, hello_cuts: vec![c], replies: 1, reply_cuts: vec![], desc: format!("hello cut at {c} of {hlen}") });
+            out.push(SegCase { xport, hello_cuts: vec![c], replies: 1, reply_cuts: vec![], big: 0, desc: format!("hello cut at {c} of {hlen}") });
         }
         // hello: all subsets of the delimiter zone
         let zone = delimiter_zone(hlen);
@@ -369,35 +381,48 @@ pub fn seg_cases(thorough: bool) -> Vec<SegCase> {
                 continue;
             }
             let cuts: Vec<usize> = (0..zn).filter(|i| mask & (1 << i) != 0).map(|i| zone[zone.len() - zn + i]).collect();
-            out.push(SegCase { xport, hello_cuts: cuts.clone(), replies: 0, reply_cuts: vec![], desc: format!("hello delimiter zone cuts {cuts:?}") });
+            out.push(SegCase { xport, hello_cuts: cuts.clone(), replies: 0, reply_cuts: vec![], big: 0, desc: format!("hello delimiter zone cuts {cuts:?}") });
         }
         // replies: two pipelined messages, every single cut
         let total2 = r1 + r2;
         let singles: Vec<usize> = if thorough { (1..total2).collect() } else { let mut v = delimiter_zone(r1); v.extend(delimiter_zone(total2)); v.extend([1, r1, r1 + 1, r1 + r2 / 2]); v };
         for c in singles {
-            out.push(SegCase { xport, hello_cuts: vec![], replies: 2, reply_cuts: vec![c], desc: format!("two replies, cut at {c} (first ends at {r1}, total {total2})") });
+            out.push(SegCase { xport, hello_cuts: vec![], replies: 2, reply_cuts: vec![c], big: 0, desc: format!("two replies, cut at {c} (first ends at {r1}, total {total2})") });
         }
         // groupings of whole messages: 3 replies in 1, 2 or 3 units
         let total3 = r1 + r2 + r3;
         for cuts in [vec![], vec![r1], vec![r1 + r2], vec![r1, r1 + r2]] {
-            out.push(SegCase { xport, hello_cuts: vec![], replies: 3, reply_cuts: cuts.clone(), desc: format!("three replies grouped by cuts {cuts:?} (of {total3})") });
+            out.push(SegCase { xport, hello_cuts: vec![], replies: 3, reply_cuts: cuts.clone(), big: 0, desc: format!("three replies grouped by cuts {cuts:?} (of {total3})") });
         }
         // pairs of cuts both inside the first reply's delimiter zone, and one in each zone
         let z1 = delimiter_zone(r1);
         let z2 = delimiter_zone(total2);
         for (i, a) in z1.iter().enumerate() {
             for b in z1.iter().skip(i + 1) {
-                out.push(SegCase { xport, hello_cuts: vec![], replies: 2, reply_cuts: vec![*a, *b], desc: format!("two replies, cuts {a},{b} inside the first delimiter zone") });
+                out.push(SegCase { xport, hello_cuts: vec![], replies: 2, reply_cuts: vec![*a, *b], big: 0, desc: format!("two replies, cuts {a},{b} inside the first delimiter zone") });
             }
             if thorough || i % 2 == 0 {
                 for b in &z2 {
-                    out.push(SegCase { xport, hello_cuts: vec![], replies: 2, reply_cuts: vec![*a, *b], desc: format!("two replies, cuts {a} and {b} (one per delimiter zone)") });
+                    out.push(SegCase { xport, hello_cuts: vec![], replies: 2, reply_cuts: vec![*a, *b], big: 0, desc: format!("two replies, cuts {a} and {b} (one per delimiter zone)") });
+                }
+            }
+        }
+        // a message far larger than the initial read buffer (and than a TLS record), followed by another one:
+        // the unit that completes the large message also carries part of / all of the next message
+        for pad in [70_000usize, 200_000] {
+            let b1 = big_reply(1, pad).len();
+            for cuts in [vec![b1 - 2000, b1 + r2 / 2], vec![b1 - 3, b1 + 1], vec![b1 - 2000], vec![b1 / 2, b1 + 7], vec![b1]] {
+                out.push(SegCase { xport, hello_cuts: vec![], replies: 2, reply_cuts: cuts.clone(), big: pad, desc: format!("reply of {b1} bytes followed by a short one, cuts {cuts:?}") });
+            }
+            if thorough {
+                for c in delimiter_zone(b1) {
+                    out.push(SegCase { xport, hello_cuts: vec![], replies: 2, reply_cuts: vec![b1 - 5000, c], big: pad, desc: format!("large reply ({b1} bytes), cut at {c} in its delimiter zone") });
                 }
             }
         }
         // byte-by-byte delivery of a delimiter
         let every: Vec<usize> = delimiter_zone(r1);
-        out.push(SegCase { xport, hello_cuts: delimiter_zone(hlen), replies: 2, reply_cuts: every, desc: "hello and first reply delimiters delivered byte by byte".into() });
+        out.push(SegCase { xport, hello_cuts: delimiter_zone(hlen), replies: 2, reply_cuts: every, big: 0, desc: "hello and first reply delimiters delivered byte by byte".into() });
     }
     out
 }
@@ -474,6 +499,8 @@ pub struct CloseCase {
     pub idle: bool,
     /// bytes of the reply stream delivered before the close
     pub reply_prefix: usize,
+    /// SSH only: the peer goes away instead of answering the subsystem request
+    pub during_setup: bool,
     pub desc: String,
 }
 
@@ -483,6 +510,36 @@ pub fn run_close(servers: &Servers, case: &CloseCase) -> Vec<(String, String)> {
     let zero_before = peers::ZERO_READS.load(std::sync::atomic::Ordering::SeqCst);
     let cpu_before = cpu_time();
     let t0 = Instant::now();
+    if case.during_setup {
+        // the peer goes away between the channel open confirmation and the subsystem reply
+        let log: Arc<Mutex<ClientLog>> = Arc::default();
+        servers.ssh.drain();
+        let (port, l2) = (servers.ssh.port, log.clone());
+        let task = servers.rt.spawn(async move {
+            let password: Password = SSH_PASSWORD.parse().unwrap();
+            drive(Session::ssh(("127.0.0.1", port), "netconf".to_string(), password), plan, l2).await;
+        });
+        let mut peer = servers.ssh.accept_opts(Duration::from_secs(3), Some(SSH_PASSWORD.to_string()), false, Some(case.kind));
+        if case.kind == CloseKind::Abort {
+            // the facade keeps a duplicate of the socket: close it as well, so the connection really drops
+            if let Some(p) = peer.as_mut() {
+                p.close(CloseKind::Abort);
+            }
+        }
+        let done = wait_until(servers.prompt + Duration::from_millis(1000), || log.lock().unwrap().established.is_some());
+        let cpu = cpu_time().saturating_sub(cpu_before);
+        if !done {
+            problems.push(("hang".into(), "the peer went away instead of answering the subsystem request and Session::ssh() never returns".into()));
+        } else if matches!(log.lock().unwrap().established, Some(Ok(()))) {
+            problems.push(("established-without-subsystem".into(), "a session was established although the subsystem request was never answered".into()));
+        }
+        if cpu > Duration::from_millis(1500) {
+            problems.push(("busy-loop".into(), format!("{:.0} ms CPU while waiting for the connection attempt to fail", cpu.as_secs_f64() * 1e3)));
+        }
+        drop(peer);
+        task.abort();
+        return problems;
+    }
     let running = start(servers, case.xport, plan);
     let Some(mut peer) = running.peer else {
         return vec![("machinery:no-peer".into(), "the client never reached the fake peer".into())];
@@ -581,9 +638,12 @@ pub fn close_cases(thorough: bool) -> Vec<CloseCase> {
             let mut hello_points: Vec<usize> = if thorough { (0..hlen).collect() } else { vec![0, 1, hlen / 2, hlen - 7, hlen - 6, hlen - 3, hlen - 1] };
             hello_points.dedup();
             for n in hello_points {
-                out.push(CloseCase { xport, kind, hello_prefix: Some(n), requests: 1, idle: false, reply_prefix: 0, desc: format!("close after {n} of {hlen} hello bytes") });
+                out.push(CloseCase { xport, kind, hello_prefix: Some(n), requests: 1, idle: false, reply_prefix: 0, during_setup: false, desc: format!("close after {n} of {hlen} hello bytes") });
             }
-            out.push(CloseCase { xport, kind, hello_prefix: None, requests: 1, idle: true, reply_prefix: 0, desc: "close while the established session is idle, then a request".into() });
+            if xport == Xport::Ssh {
+                out.push(CloseCase { xport, kind, hello_prefix: None, requests: 1, idle: false, reply_prefix: 0, during_setup: true, desc: "peer goes away instead of answering the subsystem request".into() });
+            }
+            out.push(CloseCase { xport, kind, hello_prefix: None, requests: 1, idle: true, reply_prefix: 0, during_setup: false, desc: "close while the established session is idle, then a request".into() });
             for requests in [0usize, 1, 2] {
                 let total = if requests == 2 { r1 + r2 } else { r1 * requests };
                 let mut points: Vec<usize> = if thorough { (0..total).collect() } else { vec![0, 1, r1 / 2, r1.saturating_sub(6), r1.saturating_sub(1), r1, r1 + 1, total.saturating_sub(3)] };
@@ -591,7 +651,7 @@ pub fn close_cases(thorough: bool) -> Vec<CloseCase> {
                 points.sort_unstable();
                 points.dedup();
                 for p in points {
-                    out.push(CloseCase { xport, kind, hello_prefix: None, requests, idle: false, reply_prefix: p, desc: format!("{requests} request(s) outstanding, close after {p} of {total} reply bytes") });
+                    out.push(CloseCase { xport, kind, hello_prefix: None, requests, idle: false, reply_prefix: p, during_setup: false, desc: format!("{requests} request(s) outstanding, close after {p} of {total} reply bytes") });
                 }
             }
         }
@@ -608,7 +668,7 @@ pub fn run_c07(report: &mut Report) {
     let mut distinct = std::collections::BTreeSet::new();
     let mut per_class: std::collections::BTreeMap<String, u32> = std::collections::BTreeMap::new();
     for case in &cases {
-        let point = if case.hello_prefix.is_some() { "during-hello" } else if case.idle { "idle" } else if case.reply_prefix == 0 { "before-reply" } else { "during-reply" };
+        let point = if case.during_setup { "during-setup" } else if case.hello_prefix.is_some() { "during-hello" } else if case.idle { "idle" } else if case.reply_prefix == 0 { "before-reply" } else { "during-reply" };
         let class_hint = format!("{:?}:{:?}:{point}", case.xport, case.kind);
         if per_class.get(&class_hint).copied().unwrap_or(0) >= 3 {
             report.observe(&format!("remaining cases skipped after three violations of {class_hint}"));
